@@ -584,7 +584,7 @@ def ends_dot(e):
 
 def starts_ident(e):
     t = e[0]
-    if t in ("var", "call", "slice"): return True
+    if t in ("var", "call", "slice", "not"): return True       # `¬y` is an identifier: `x.a,¬y` is a swizzle too
     if t == "lit": return e[1] == "bool"
     if t == "trans": return starts_ident(e[1])
     if t in ("term", "range", "rangei"): return starts_ident(e[1])
@@ -832,13 +832,30 @@ def has_arrwild(stmts):
 
 
 def lead_eq(e):
-    if e[0] == "term": return (e[1][0] in ("var", "slice") and (e[1][0] == "slice" or e[1][2] is None) and e[2][0][0] in ("seq", "sneq")) or lead_eq(e[1])
+    if e[0] == "term": return (_target(e[1]) and e[2][0][0] in ("seq", "sneq")) or lead_eq(e[1])
     if e[0] in ("range", "rangei"): return lead_eq(e[1])
     return False
 
 
-def is_target(p):
-    return p[0] == "fe" and ((p[1][0] == "var" and p[1][2] is None) or p[1][0] == "slice")
+def _nid_tail(e):
+    """what may follow a leading `¬` so that the whole lexes as an identifier (with subscripts): ¬x ¬¬x ¬true ¬5 ¬22/7 ¬x[1]"""
+    if e[0] == "var": return e[2] is None
+    if e[0] == "slice": return True
+    if e[0] == "lit": return e[3] is None and e[1] in ("bool", "num")
+    if e[0] in ("not", "neg"): return _nid_tail(e[1])
+    return False
+
+
+def _target(e):
+    """an assignable target as the statement grammar lexes it (Model/Fmt3.v is_target)"""
+    if e[0] == "var": return e[2] is None
+    if e[0] == "slice": return True
+    if e[0] == "lit": return e[1] == "bool" and e[3] is None
+    if e[0] == "not": return _nid_tail(e[1])
+    return False
+
+
+def is_target(p): return p[0] == "fe" and _target(p[1])
 
 
 def has_guard_next_out(stmts):
